@@ -4,14 +4,13 @@
      C11/Gen.v   (translator/naive_c11.py): ForecastingHorizon.to_absolute / to_relative /
                  to_absolute_int, NaiveForecaster.fit / _predict_last_window, the time axis of
                  PolynomialTrendForecaster;
-     C20/Gen.v   (translator/validate.py): _set_fh of the optional-horizon mixin -
+   (Site.v also holds the regenerated _set_fh of the optional-horizon mixin) -
    is, for all arguments, the hand model (Model.v) the theorems are proved about.  `gen_model_run`
    assembles the program semantics from the regenerated pieces only; Props.v restates the key
    theorems about it. *)
 From Coq Require Import ZArith QArith List Bool Lia ZifyBool.
 Require Import SkV.Lib.Base SkV.Lib.ZRange SkV.C11.Model SkV.C11.Proofs SkV.C11.Gen SkV.C11.Bridge.
 Require Import SkV.C03.Model SkV.C03.Proofs SkV.C03.Site.
-Require SkV.C20.Model SkV.C20.Gen SkV.C20.Bridge.
 Import ListNotations.
 Open Scope Z_scope.
 
@@ -144,45 +143,28 @@ Proof.
   destruct leaf as [f|]; [|reflexivity]. rewrite bridge_leaf_values. reflexivity.
 Qed.
 
-(* ---- which horizon predict uses: the regenerated _set_fh of the optional-horizon mixin (C20/Gen.v) ----- *)
+(* ---- which horizon predict uses: the regenerated _set_fh of the optional-horizon mixin (Site.v) ---------- *)
 
 (* fit calls _set_fh(hf) on the unfitted forecaster, predict calls _set_fh(hp) on the fitted one
    (pinned: predict = check_is_fitted; _set_fh(fh); _predict(self.fh, ...)); a refit in between
-   calls _set_fh with the remembered value on a forecaster marked unfitted, which keeps it *)
-Definition code_horizon (hf hp : option SkV.C20.Model.fh_input) : res (option (list Z)) :=
-  match SkV.C20.Gen.gen_set_fh_optional false None hf with
-  | Ok remembered => SkV.C20.Gen.gen_set_fh_optional true remembered hp
+   calls _set_fh with the remembered value on a forecaster marked unfitted, which keeps it.
+   hf / hp = the horizons check_fh returns for the arguments (None = no argument) *)
+Definition code_horizon (hf hp : option (list Z)) : res (option (list Z)) :=
+  match gen_set_fh_optional false None hf with
+  | Ok remembered => gen_set_fh_optional true remembered hp
   | Err => Err
   end.
-Definition checked (h : option SkV.C20.Model.fh_input) : res (option (list Z)) :=
-  match h with
-  | None => Ok None
-  | Some fi => match SkV.C20.Model.fh_checked fi with Ok l => Ok (Some l) | Err => Err end
-  end.
-Theorem bridge_horizon_used hf hp lf lp :
-  checked hf = Ok lf -> checked hp = Ok lp ->
+Theorem bridge_horizon_used hf hp :
   code_horizon hf hp =
-  match used_fh (option_map Rel lf) (option_map Rel lp) with
+  match used_fh (option_map Rel hf) (option_map Rel hp) with
   | Ok h => Ok (Some (hlist h))
   | Err => Err
   end.
 Proof.
-  unfold code_horizon, checked, used_fh. intros H1 H2.
-  rewrite SkV.C20.Bridge.bridge_set_fh_optional. unfold SkV.C20.Model.set_fh at 1.
-  destruct hf as [fi|].
-  - destruct (SkV.C20.Model.fh_checked fi) as [a|]; [|discriminate]. cbn [andb].
-    rewrite SkV.C20.Bridge.bridge_set_fh_optional. unfold SkV.C20.Model.set_fh.
-    destruct hp as [fj|].
-    + destruct (SkV.C20.Model.fh_checked fj) as [b|]; [|discriminate].
-      inversion H1; inversion H2; subst. reflexivity.
-    + inversion H1; inversion H2; subst. reflexivity.
-  - rewrite SkV.C20.Bridge.bridge_set_fh_optional. unfold SkV.C20.Model.set_fh.
-    destruct hp as [fj|].
-    + destruct (SkV.C20.Model.fh_checked fj) as [b|]; [|discriminate].
-      inversion H1; inversion H2; subst. reflexivity.
-    + inversion H1; inversion H2; subst. reflexivity.
+  unfold code_horizon, gen_set_fh_optional, used_fh.
+  destruct hf as [lf|]; destruct hp as [lp|]; cbn [option_map hlist]; split_bools; reflexivity.
 Qed.
-(* an unfitted forecaster keeps the remembered horizon when refitted with it (or with none) *)
+(* a forecaster marked unfitted keeps the remembered horizon when refitted with it or with none *)
 Lemma bridge_refit_keeps_horizon old :
-  SkV.C20.Gen.gen_set_fh_optional false old None = Ok old.
-Proof. rewrite SkV.C20.Bridge.bridge_set_fh_optional. reflexivity. Qed.
+  gen_set_fh_optional false old old = Ok old /\ gen_set_fh_optional false old None = Ok old.
+Proof. unfold gen_set_fh_optional. destruct old; split; split_bools; reflexivity. Qed.
